@@ -44,6 +44,11 @@ std::string nest_bytes(int family, long d) {
         case 13: for (long i = 0; i < d; i++) s += "[0,"; s += "1"; s.append((size_t)d, ']'); break;
         case 14: for (long i = 0; i < d; i++) s += "{\"a\":0,\"b\":"; s += "1"; s.append((size_t)d, '}'); break;
         case 15: for (long i = 0; i < d; i++) s += (i & 1) ? "{\"x\":[],\"y\":" : "[{},"; s += "null"; for (long i = d - 1; i >= 0; i--) s += (i & 1) ? "}" : "]"; break;
+        // every level first holds an empty container (or two) and then nests: an empty container must leave the depth count where it was
+        case 16: for (long i = 0; i < d; i++) s += "[[],"; s += "1"; s.append((size_t)d, ']'); break;
+        case 17: for (long i = 0; i < d; i++) s += "{\"a\":{},\"b\":"; s += "1"; s.append((size_t)d, '}'); break;
+        case 18: for (long i = 0; i < d; i++) s += "[{},[],"; s += "1"; s.append((size_t)d, ']'); break;
+        case 19: for (long i = 0; i < d; i++) s += "{\"a\":[],\"b\":{},\"c\":"; s += "1"; s.append((size_t)d, '}'); break;
     }
     return s;
 }
@@ -160,7 +165,7 @@ struct XParse : Engine {
             for (int b = 0; b < 256; b++) { std::string x(1, (char)b); emit(x); emit("\"" + x + "\""); emit("1" + x); emit("[1" + x + "]"); emit(x + "1"); emit("\"\\" + x + "\""); emit("{\"" + x + "\":0}"); }
         } else if (stage == "nest") {
             const long lim = CJSON_NESTING_LIMIT;
-            for (int fam = 0; fam < 16; fam++) for (long d : { 1L, 2L, 3L, 4L, 50L, lim - 1, lim, lim + 1, lim + 2, 2 * lim, 100000L }) {
+            for (int fam = 0; fam < 20; fam++) for (long d : { 1L, 2L, 3L, 4L, 50L, lim - 1, lim, lim + 1, lim + 2, 2 * lim, 100000L }) {
                 if (fam >= 7 && fam <= 12 && d == 100000L) d = 5 * lim + 3; if (fam >= 13 && d == 100000L) d = 30000L;
                 if (!pool_take()) continue;
                 static Case c; c.kind = K_NEST; c.iv[1] = fam; c.iv[2] = d; c.len = 0; pool_run(c);
@@ -479,12 +484,12 @@ struct XParse : Engine {
     }
     void finish(std::map<std::string, std::string>& x) override {
         x["rule"] = jstr("one case = one input text, run through all ten entry-point variants on an exact-size buffer that ends at (and, mirrored, starts after) an inaccessible page, and compared with an independent strict RFC 8259 decoder (S) and a recogniser of the library's lenient dialect (L). "
-                         "Stages enumerate completely: all byte strings over a 33-byte alphabet up to the length bound, all token sequences over 16 tokens, all sequences of string pieces (escapes, surrogates, malformed escapes, raw bytes), 16 nesting families around the limit, all \\uXXXX escapes and surrogate pairs, number spellings, "
+                         "Stages enumerate completely: all byte strings over a 33-byte alphabet up to the length bound, all token sequences over 16 tokens, all sequences of string pieces (escapes, surrogates, malformed escapes, raw bytes), 20 nesting families around the limit, all \\uXXXX escapes and surrogate pairs, number spellings, "
                          "every number length 1..130 in 8 forms and every malformed tail of up to 4 number characters behind a long number, string literals of every length 0..300 and around 512 / 1024 / 4096 (complete and cut off), all single-edit corruptions of seed texts; "
                          "plus: every allocation request of every entry point refused in turn (texts up to 3 tokens), the same memory parsed twice with different contents, and the enumerations repeated under user-supplied allocators");
     }
     std::string describe(const Case& c) override {
-        if (c.kind == K_NEST) { static const char* fn[] = { "'['^d", "'['^d ']'^d", "'{\"a\":'^d", "'{\"a\":'^d 1 '}'^d", "alternating [ {\"a\": ^d null closers", "'[1,'^d", "'[ '^d ' ]'^d", "'[' d x '[]' ']'", "'[' d x '{}' ']'", "'[' d x '[1]' ']'", "'{' d x '\"a\":{\"b\":2}' '}'", "'[' d x '[[],{}]' ']'", "'{' d x '\"k\":[]' '}'", "'[0,'^d 1 ']'^d", "'{\"a\":0,\"b\":'^d 1 '}'^d", "alternating later-position nesting ^d" }; return std::string("nesting family ") + fn[c.iv[1]] + " d=" + std::to_string(c.iv[2]); }
+        if (c.kind == K_NEST) { static const char* fn[] = { "'['^d", "'['^d ']'^d", "'{\"a\":'^d", "'{\"a\":'^d 1 '}'^d", "alternating [ {\"a\": ^d null closers", "'[1,'^d", "'[ '^d ' ]'^d", "'[' d x '[]' ']'", "'[' d x '{}' ']'", "'[' d x '[1]' ']'", "'{' d x '\"a\":{\"b\":2}' '}'", "'[' d x '[[],{}]' ']'", "'{' d x '\"k\":[]' '}'", "'[0,'^d 1 ']'^d", "'{\"a\":0,\"b\":'^d 1 '}'^d", "alternating later-position nesting ^d", "'[[],'^d 1 ']'^d", "'{\"a\":{},\"b\":'^d 1 '}'^d", "'[{},[],'^d 1 ']'^d", "'{\"a\":[],\"b\":{},\"c\":'^d 1 '}'^d" }; return std::string("nesting family ") + fn[c.iv[1]] + " d=" + std::to_string(c.iv[2]); }
         return "\"" + printable(c.str().substr(0, 100)) + "\" (" + std::to_string(c.len) + " bytes)";
     }
 };
